@@ -175,7 +175,22 @@ func (i *interpreter) concStr(s sstr) string {
 }
 
 func (i *interpreter) forceStr(d decStr, why string) value {
-	// enumerating the decimal forms of a 64-bit value is hopeless: give up
+	// the digits are needed: concretise the integer (one path per value; the
+	// concretisation cap makes wide ranges inconclusive rather than wrong)
+	switch n := i.conc(d.n).(type) {
+	case int:
+		return strconv.Itoa(n)
+	case int64:
+		return strconv.FormatInt(n, 10)
+	case int32:
+		return strconv.FormatInt(int64(n), 10)
+	case uint:
+		return strconv.FormatUint(uint64(n), 10)
+	case uint64:
+		return strconv.FormatUint(n, 10)
+	case uint32:
+		return strconv.FormatUint(uint64(n), 10)
+	}
 	panic(engineError{"decimal string of a symbolic integer inspected (" + why + ")"})
 }
 
